@@ -1,5 +1,6 @@
 import S2T.Drv.Util
 import S2T.Gen.Units
+import S2T.Model.UnitsCarrier
 namespace S2T.Drv.C03
 open Lean S2T.Drv S2T.Units
 
@@ -190,8 +191,17 @@ def rtfExtract (j : Json) : Except String Json := do
 def combine (j : Json) : Except String Json := do
   return Json.mkObj [("out", jNats (combineSur (← natArr j "codes")))]
 
+/-- op `c03.odp_classify`: the paragraphs of a slide's text boxes in frame order ↦ title / body_text / other_text -/
+def odpClassifyOp (j : Json) : Except String Json := do
+  let ps ← (← getArr j "paras").toList.mapM (fun x => do
+    return ({ style := chars (← getStr x "style"), text := chars (← getStr x "text") } : S2T.Units.Carrier.OdpPara))
+  let a := S2T.Units.Carrier.odpClassify T ps
+  return Json.mkObj [("title", match a.title with | some t => jS t | none => Json.null),
+    ("body", Json.arr (a.body.map jS).toArray), ("other", Json.arr (a.other.map jS).toArray)]
+
 def handle (op : String) (j : Json) : Option (Except String Json) :=
   match op with
+  | "c03.odp_classify" => some (odpClassifyOp j)
   | "c03.units" => some (units j)
   | "c03.pptx_order" => some (pptxOrder j)
   | "c03.ppt_list" => some (pptList j)
